@@ -51,8 +51,11 @@ Parts(c, r) ==
 \* - no roots given: by definition the first component of the (relative) target
 \* - a bare root-namespace name with a working-directory-relative target: the first directory of that name along the
 \*   target path AS SPELLED (the only thing the two arguments can denote together)
-FirstNamed(c) ==    \* index in FileDir(c) of the first component named "animals" after the working directory, 0 if none
-  LET I == { i \in (Len(c.cwd) + 1)..Len(FileDir(c)) : FileDir(c)[i] = "animals" } IN
+\* the bare names among the roots: the root's own, and (extra = name-before / name-after) the name of the nested namespace
+\* "felines" listed as one more bare name before / after it - the roots then are a SET of names, their order means nothing
+NamesOf(c) == {"animals"} \cup (IF c.extra \in {"name-before", "name-after"} THEN {"felines"} ELSE {})
+FirstNamed(c) ==    \* index in FileDir(c) of the first component carrying one of the names after the working directory, 0 if none
+  LET I == { i \in (Len(c.cwd) + 1)..Len(FileDir(c)) : FileDir(c)[i] \in NamesOf(c) } IN
     IF I = {} THEN 0 ELSE CHOOSE i \in I : \A j \in I : i <= j
 ExpectedRoot(c) ==
   IF c.rdes = "none"
@@ -65,6 +68,7 @@ Spellable(c) ==
   /\ c.rdes = "rel" => IsPrefix(c.cwd, RootDir) /\ c.cwd # RootDir   \* a relative root path needs at least one component
   /\ c.rdes = "none" => c.tsp = "cwdrel" /\ Len(c.cwd) < Len(FileDir(c))
   /\ c.extra # "none" => c.rdes # "none"
+  /\ c.extra \in {"name-before", "name-after"} => c.rdes = "name" /\ c.cwd # RootDir   \* (there "felines" is also a relative PATH to a nested directory)
   /\ (c.rdes = "name" /\ c.tsp = "cwdrel") => FirstNamed(c) > 0       \* otherwise the name designates nothing
   /\ c.api = "namespace" => c.tsp = "abs" /\ c.rdes \in {"abs", "rel"} /\ c.extra = "none"
 
@@ -101,6 +105,8 @@ MainRootSp(c) == CASE c.rdes = "abs" -> <<Sp(TRUE, RootDir)>>
                    [] c.rdes = "none" -> <<>>
 RootsSp(c) == CASE c.extra = "before" -> <<Sp(TRUE, PlantsDir)>> \o MainRootSp(c)
                 [] c.extra = "after" -> MainRootSp(c) \o <<Sp(TRUE, PlantsDir)>>
+                [] c.extra = "name-before" -> <<Sp(FALSE, <<"felines">>)>> \o MainRootSp(c)
+                [] c.extra = "name-after" -> MainRootSp(c) \o <<Sp(FALSE, <<"felines">>)>>
                 [] OTHER -> MainRootSp(c)
 SpPrefix(r, t) == r.abs = t.abs /\ IsPrefix(r.parts, t.parts) /\ Len(r.parts) < Len(t.parts)
 
@@ -161,7 +167,7 @@ Pick ==
   /\ ph = 0
   /\ \E depth \in 0..3, port \in {0 - 1} \cup SubjectPorts \cup ServicePorts, ver \in Vers, name \in Names,
         cwd \in Cwds, tsp \in {"abs", "cwdrel", "rootrel"}, rdes \in {"abs", "rel", "name", "none"},
-        extra \in {"none", "before", "after"}, api \in {"files", "namespace"}, kind \in {"message", "service"} :
+        extra \in {"none", "before", "after", "name-before", "name-after"}, api \in {"files", "namespace"}, kind \in {"message", "service"} :
        LET c == [depth |-> depth, port |-> port, ver |-> ver, name |-> name, cwd |-> cwd, tsp |-> tsp, rdes |-> rdes,
                  extra |-> extra, api |-> api, kind |-> kind] IN
          /\ Spellable(c)
